@@ -67,6 +67,23 @@ Verdict(files, pr) ==
          IN  IF g = <<>> THEN "none" ELSE PathOrParents(g, Tail(pr.path), Len(pr.path) - 1, pr.isDir)
     ELSE Levels(files, pr.path, Len(pr.path) - 1, pr.isDir)
 
+\* git's own evaluation (dir.c: last_matching_pattern and the rule that nothing below an excluded
+\* directory can be re-included), inside the origin and without global files: the PATH ITSELF against
+\* the files from the nearest directory to the origin, last matching line of the first file that has one;
+\* and before that, the same question for every directory above it.  It differs from the glob library's
+\* "path or any parent, first answer wins" exactly when the answer for a PARENT directory is a
+\* re-inclusion: git then goes on with the path itself, the library stops.
+RECURSIVE GitSelf(_, _, _, _)
+GitSelf(files, path, k, isDir) ==
+    IF k < 0 THEN "none"
+    ELSE LET ls  == LinesAt(files, SubSeq(path, 1, k))
+             rel == SubSeq(path, k + 1, Len(path))
+             v   == IF ls = <<>> THEN "none" ELSE LastMatch(ls, Len(ls), rel, isDir)
+         IN  IF v # "none" THEN v ELSE GitSelf(files, path, k - 1, isDir)
+GitIgnored(files, pr) ==
+    \/ \E k \in 1..(Len(pr.path) - 1) : GitSelf(files, SubSeq(pr.path, 1, k), k - 1, TRUE) = "ignore"
+    \/ GitSelf(files, pr.path, Len(pr.path) - 1, pr.isDir) = "ignore"
+
 \* What the property leaves open: a directory versus an ignore file stored in that very
 \* directory; re-inclusion below an excluded parent (git and the glob library differ);
 \* anchored global patterns seen from outside the origin.
@@ -77,6 +94,15 @@ Unspecified(files, pr) ==
     \/ pr.isDir /\ LinesAt(files, pr.path) # <<>>
     \/ Head(pr.path) # "OUT" /\ AncestorIgnored(files, pr) /\ Verdict(files, pr) # "ignore"
     \/ Head(pr.path) = "OUT" /\ \E i \in 1..Len(LinesAt(files, Global)) : LinesAt(files, Global)[i].anchored
+    \* wherever git itself would answer differently from the library's path-or-any-parent walk (a parent
+    \* directory re-included by a nearer file, the path itself ignored by a farther one)
+    \/ Head(pr.path) # "OUT" /\ LinesAt(files, Global) = <<>> /\ (Verdict(files, pr) = "ignore") # GitIgnored(files, pr)
+    \* a directory d against a pattern d/**: git's check-ignore counts the directory itself as matched, the
+    \* glob library only what is inside it (found by comparing this specification with git: tools/gitoracle.py)
+    \/ pr.isDir /\ \E i \in DOMAIN files : \E j \in DOMAIN files[i].lines :
+           LET p == files[i].lines[j] IN
+           /\ Len(p.segs) >= 2 /\ p.segs[Len(p.segs)].k = "dstar"
+           /\ p.segs[Len(p.segs) - 1].k = "lit" /\ p.segs[Len(p.segs) - 1].v = pr.path[Len(pr.path)]
 
 Expected(files, pr) ==
     IF Unspecified(files, pr) THEN "any"
